@@ -593,9 +593,6 @@ func (d *Driver) Replay(bi int, b Behaviour) {
 			}
 			d.subs[st.N-1].expect = append(d.subs[st.N-1].expect, e)
 		}
-		if len(d.res.Violations) > 50 {
-			return
-		}
 	}
 	if d.subs != nil {
 		d.checkSubs(bi, ds)
@@ -1452,6 +1449,50 @@ func (d *Driver) dagInvariants(bi, si int, docID string, ni int) int {
 		for _, o := range hs {
 			if o != h && seen[o] {
 				d.violate("C04", bi, si, "heads", "node %s: reported head %s of %s is an ancestor of reported head %s", n.Name, o, docID, h)
+			}
+		}
+	}
+	// the stored heads of every field: no stored head is an ancestor (in that field's block graph) of another one
+	raw, err := n.RawKeys(d.ctx, "/db/heads/d/"+docID+"/")
+	if err == nil {
+		byField := map[string][]string{}
+		for k := range raw {
+			parts := strings.Split(strings.TrimPrefix(k, "/db/heads/d/"+docID+"/"), "/")
+			if len(parts) == 2 {
+				byField[parts[0]] = append(byField[parts[0]], parts[1])
+			}
+		}
+		for field, heads := range byField {
+			if len(heads) < 2 {
+				continue
+			}
+			isHead := map[string]bool{}
+			for _, h := range heads {
+				isHead[h] = true
+			}
+			for _, h := range heads {
+				seen := map[string]bool{}
+				var walk func(c cid.Cid, top bool)
+				walk = func(c cid.Cid, top bool) {
+					if seen[c.String()] {
+						return
+					}
+					seen[c.String()] = true
+					if !top && isHead[c.String()] {
+						d.violate("C04", bi, si, "field-heads-raw", "node %s: head store of field %s of %s holds %s, which is an ancestor of the stored head %s", n.Name, field, docID, c, h)
+						return
+					}
+					blk, _, err := n.GetBlock(d.ctx, c)
+					if err != nil {
+						return
+					}
+					for _, p := range blk.Heads {
+						walk(p.Cid, false)
+					}
+				}
+				if c, err := cid.Decode(h); err == nil {
+					walk(c, true)
+				}
 			}
 		}
 	}
